@@ -30,6 +30,7 @@ LEVEL = "exploration"
 INSTANT_CAP_MIN = 20_000
 INSTANT_CAP_PER_ARRIVAL = 200
 TOTAL_CAP = 400_000
+MUTATED_FRACTION = 0.5  # share of exploration cases that also get 1-2 constructor-parameter mutations
 
 RULE = (
     "Layer 1: every case = (scenario builder from hsverif.scenarios, seed, hostile parameters): arrival instants "
@@ -79,7 +80,9 @@ def _coverage():
     return _COV
 
 
-def run_scenario(name: str, seed: int, params: dict, res: Result | None = None, coverage: bool = True) -> Result:
+def run_scenario(
+    name: str, seed: int, params: dict, res: Result | None = None, coverage: bool = True, mutate: dict | None = None
+) -> Result:
     from hsverif.c07_probe import C07Probe, driven_classes, is_library_module, norm_type
     from hsverif.probe import quiet_library_logging
     from hsverif.scenarios import CATALOGUE
@@ -87,7 +90,32 @@ def run_scenario(name: str, seed: int, params: dict, res: Result | None = None, 
     quiet_library_logging()
     res = res if res is not None else Result()
     cov = _coverage() if coverage else None
-    sc = CATALOGUE[name](seed, params)
+    applied: list = []
+    if mutate:
+        # generic hostile layer over the numeric constructor parameters (hsverif.scenarios._mutate):
+        # pass 1 records the sites, the case's own RNG picks replacements, pass 2 builds with them.
+        from hsverif.scenarios import _mutate
+
+        def build():
+            return CATALOGUE[name](seed, params)
+
+        plan = mutate.get("plan")
+        if plan is None:
+            plan = _mutate.plan_mutations(_mutate.record_sites(build), int(mutate.get("seed", 0)), int(mutate.get("k", 1)))
+        try:
+            sc, applied = _mutate.build_mutated(build, plan)
+        except Exception as exc:  # noqa: BLE001
+            # the builder's own code could not cope with the replaced value (harness limitation, not a verdict)
+            res.inconclusive = f"builder {name} cannot be built with constructor mutation {plan}: {type(exc).__name__}: {exc}"[:300]
+            res.count("mutated_builds_failed")
+            return res
+        res.count("ctor_mutations_applied", sum(1 for a in applied if "rejected" not in a))
+        res.count("ctor_mutations_rejected_by_constructor", sum(1 for a in applied if "rejected" in a))
+        for a in applied:
+            if "rejected" not in a:
+                res.seen("mutated_parameters", f"{a['cls']}.{a['param']}")
+    else:
+        sc = CATALOGUE[name](seed, params)
     cap = max(INSTANT_CAP_MIN, INSTANT_CAP_PER_ARRIVAL * max(1, sc.workload))
     probe = C07Probe(log_deliveries=False, instant_cap=cap, total_cap=TOTAL_CAP)
 
@@ -103,7 +131,11 @@ def run_scenario(name: str, seed: int, params: dict, res: Result | None = None, 
 
             origin, where = _classify_exception(exc)
             if origin != "library":
-                raise
+                if not applied:
+                    raise
+                res.inconclusive = f"harness code of {name} failed under constructor mutation: {type(exc).__name__}: {exc}"[:300]
+                res.count("mutated_runs_harness_failed")
+                return res
             status = "exception"
             lib_exc = f"{where}:{type(exc).__name__}"
     if lib_exc is not None:
@@ -137,7 +169,12 @@ def run_scenario(name: str, seed: int, params: dict, res: Result | None = None, 
                 f"(clock={r0['clock_ns']} ns, event.time={r0['event_time_ns']} ns) by {r0.get('creator') or comp} "
                 f"[{r0['how']}] during a delivery to {r0['delivery_class']} in scenario {name}"
             ),
-            witness={"scenario": name, "count": len(recs), "first": {k: v for k, v in r0.items() if k != "event_id"}},
+            witness={
+                "scenario": name,
+                "count": len(recs),
+                "first": {k: v for k, v in r0.items() if k != "event_id"},
+                "ctor_mutations": applied,
+            },
         )
     # ---- discards the emission probe does not explain
     n_tt = len(probe.time_travel)
@@ -179,7 +216,7 @@ def run_scenario(name: str, seed: int, params: dict, res: Result | None = None, 
                         f"{spin.count} deliveries at t={spin.time_ns} ns (cap {cap}, {sc.workload} arrivals scheduled) "
                         f"in scenario {name}; cycle={cycle[:6]}"
                     ),
-                    witness={"scenario": name, "time_ns": spin.time_ns, "cap": cap, "cycle": cycle},
+                    witness={"scenario": name, "time_ns": spin.time_ns, "cap": cap, "cycle": cycle, "ctor_mutations": applied},
                 )
         else:
             res.inconclusive = "spin under a non-finite workload"
@@ -218,13 +255,16 @@ def _gen_for(family: str):
 
         pool = names(family)
         name = rng.choice(pool)
-        return {"scenario": name, "seed": rng.randrange(0, 10_000), "params": hostile_params(rng, tier)}
+        case = {"scenario": name, "seed": rng.randrange(0, 10_000), "params": hostile_params(rng, tier)}
+        if rng.random() < MUTATED_FRACTION:
+            case["mutate"] = {"seed": rng.randrange(0, 1_000_000), "k": rng.choice([1, 1, 2])}
+        return case
 
     return gen
 
 
 def run_case(case: dict) -> Result:
-    return run_scenario(case["scenario"], case["seed"], case["params"])
+    return run_scenario(case["scenario"], case["seed"], case["params"], mutate=case.get("mutate"))
 
 
 _KNOWN_KEYS = None
@@ -242,6 +282,22 @@ def _known_keys() -> set:
     return _KNOWN_KEYS
 
 
+def _freeze_plan(case: dict) -> dict:
+    from hsverif.scenarios import CATALOGUE, _mutate
+
+    m = case.get("mutate") or {}
+    if "plan" in m:
+        return case
+
+    def build():
+        return CATALOGUE[case["scenario"]](case["seed"], case["params"])
+
+    plan = _mutate.plan_mutations(_mutate.record_sites(build), int(m.get("seed", 0)), int(m.get("k", 1)))
+    out = json.loads(json.dumps(case))
+    out["mutate"] = {"plan": plan}
+    return out
+
+
 def _shrink(case: dict, still_fails) -> dict:
     """Cheap shrinking (each probe re-runs the scenario): builder defaults first, then fewer arrivals.
 
@@ -255,6 +311,12 @@ def _shrink(case: dict, still_fails) -> dict:
     if still_fails(base):
         return base
     cur = json.loads(json.dumps(case))
+    if cur.get("mutate"):
+        # freeze the plan (so that shrinking the arrivals cannot move the sites), then try without it
+        cur = _freeze_plan(cur)
+        cand = {k: v for k, v in cur.items() if k != "mutate"}
+        if still_fails(cand):
+            cur = cand
     arr = cur["params"].get("arrivals_ns") or []
     for _ in range(3):
         if len(arr) <= 2:
